@@ -428,6 +428,11 @@ def check(prop, tier, seed, out):
         st = c14_differential(prop, results, exe, out, tier, seed)
         out.extra["listing"] = st
         out.require("terse_listings_compared", st["terse_runs"], 30)
+        # the macro-expansion path (one argument list shared by all instantiations of a generic benchmark): listing vs. real calls
+        from . import cratecheck
+        g = cratecheck.c14_macro_slice(tier, seed, out)
+        out.extra["generated_crates"] = g
+        out.require("generated_crate_listings_compared", g.get("listings_compared", 0), 3)
         out.require("exact_roundtrips", st["roundtrips"], 20)
         out.require("list_runs", st["list_runs"], 30)
     elif prop == "C15":
